@@ -114,8 +114,11 @@ func (c *Authority) VerifyPartialCert(cert hotstuff.PartialCert) error {
 
 // VerifyQuorumCert verifies a quorum certificate.
 func (c *Authority) VerifyQuorumCert(qc hotstuff.QuorumCert) error {
-	// genesis QC is always valid.
+	// the genesis QC is valid without signatures, but only for the genesis view.
 	if qc.BlockHash() == hotstuff.GetGenesis().Hash() {
+		if qc.View() != hotstuff.GetGenesis().View() {
+			return fmt.Errorf("quorum certificate for the genesis block claims view %d", qc.View())
+		}
 		return nil
 	}
 
@@ -133,6 +136,10 @@ func (c *Authority) VerifyQuorumCert(qc hotstuff.QuorumCert) error {
 	block, ok := c.blockchain.Get(qc.BlockHash())
 	if !ok {
 		return fmt.Errorf("block not found: %v", qc.BlockHash())
+	}
+	// the signatures cover the block (and thereby its view); the view claimed by the QC must match.
+	if qc.View() != block.View() {
+		return fmt.Errorf("quorum certificate claims view %d but certifies a block of view %d", qc.View(), block.View())
 	}
 	return c.Verify(qc.Signature(), block.ToBytes())
 }
